@@ -165,7 +165,11 @@ def run(cap):
             dz = region.zShift.ylow[:, 1:] - region.zShift.ylow[:, :-1]
             if np.any(dz != 0):
                 upd("simpson:sign(g_23/g_33)=sign(dzShift/dy)", (np.sign(simp) != np.sign(dz)).astype(float), region, "centre")
-                upd("simpson:size g_23/g_33~dzShift/dy", np.where(ok, np.abs(np.abs(simp / dz) - 1.0), 0.0), region, "centre")
+                # Simpson's rule needs a smoothly varying cell size: compare the magnitude only where
+                # hy at the two faces and the centre differ by less than a factor 1.5
+                h3 = np.stack([region.hy.ylow[:, :-1], region.hy.centre, region.hy.ylow[:, 1:]])
+                smooth = ok & (h3.max(axis=0) / h3.min(axis=0) < 1.5)
+                upd("simpson:size g_23/g_33~dzShift/dy", np.where(smooth, np.abs(np.abs(simp / dz) - 1.0), 0.0), region, "centre")
             else:
                 upd("simpson:g_23=0 when zShift=0", np.abs(simp), region, "centre")
 
@@ -188,7 +192,7 @@ def run(cap):
         "I=0": 0.0,
         "disp:g_11": 0.35,
         "disp:hy": 0.2,
-        "disp:e_x.e_y~0": 0.2,
+        "disp:e_x.e_y~0": 0.4,
         "disp:sign+size": 0.25,
         "simpson:sign": 0.0,
         "simpson:size": 0.4,
